@@ -24,6 +24,8 @@ func init() {
 			{"C18.join-root", "LocalFS touches only filepath.Join(fs.Root, n.Name)", 15, c18JoinRoot},
 			{"C18.lstat-dir", "CreateDir refuses an existing non-directory (lstat) before doing anything", 2, c18LstatDir},
 			{"C18.unlink-before-create", "files, symlinks and devices are created only after what was under the name has been removed", 3, c18UnlinkBeforeCreate},
+			{"C18.single-root", "only the first entry of an archive may come without a filename", 1, c18SingleRoot},
+			{"C18.symlink-nofollow", "a symlink entry's metadata is applied to the link, never through it", 2, c18SymlinkNoFollow},
 		},
 	})
 }
@@ -516,5 +518,164 @@ func c18UnlinkBeforeCreate(c *Ctx) {
 		if found == 0 {
 			c.bad(key+":create", fn.Pos(), "no creating call found")
 		}
+	}
+}
+
+// c18SingleRoot: only the root of an archive has no filename.  An entry that is not preceded by a
+// filename element gets the name of the directory the decoder is in; anywhere but at the start
+// that lets a crafted archive replace the directory being unpacked by a file and then by a
+// symlink to the outside, and everything that follows is created through the link.  Path rule
+// over ArchiveDecoder.Next: a node is returned only on paths that validated a filename for it,
+// found the name non-empty, or found the decoder's "an entry was decoded before" state unset -
+// and every path that returns a node sets that state.
+func c18SingleRoot(c *Ctx) {
+	fn := c.mustFn("ArchiveDecoder.Next")
+	if fn == nil {
+		return
+	}
+	stateField := func(v ssa.Value) (string, bool) {
+		u, ok := v.(*ssa.UnOp)
+		if !ok || u.Op != token.MUL {
+			return "", false
+		}
+		fa, ok := u.X.(*ssa.FieldAddr)
+		if !ok || !strings.HasPrefix(fieldOf(fa), "ArchiveDecoder.") || !isBool(u.Type()) {
+			return "", false
+		}
+		return fieldOf(fa), true
+	}
+	var bad []string
+	nodes := 0
+	h := &Hooks{MaxVisits: 2, MaxPaths: 400000}
+	h.Call = func(st *State, call *ssa.Call) map[int]Val {
+		if isNameValidator(directCallee(call)) {
+			st.Flags["named"] = 1
+		}
+		return nil
+	}
+	h.Branch = func(st *State, iff *ssa.If, taken bool) {
+		cond, neg := iff.Cond, false
+		for {
+			if u, ok := cond.(*ssa.UnOp); ok && u.Op == token.NOT {
+				cond, neg = u.X, !neg
+				continue
+			}
+			break
+		}
+		if f, ok := stateField(cond); ok {
+			if taken == neg { // the state is false on this edge
+				st.Flags["first:"+f] = 1
+			}
+			return
+		}
+		cm, truth, ok := cmpOf(iff.Cond)
+		if !ok || (cm.op != token.EQL && cm.op != token.NEQ) {
+			return
+		}
+		for _, pr := range [][2]ssa.Value{{cm.x, cm.y}, {cm.y, cm.x}} {
+			k, isK := pr[1].(*ssa.Const)
+			if !isK || k.Value == nil || k.Value.Kind() != constant.String || constant.StringVal(k.Value) != "" {
+				continue
+			}
+			if hasOrigin(pr[0], func(o string) bool { return o == "field:FormatFilename.Name" }) {
+				empty := ((cm.op == token.EQL) == truth) == taken
+				if !empty {
+					st.Flags["nonempty"] = 1
+				}
+			}
+		}
+	}
+	h.Instr = func(st *State, ins ssa.Instruction) {
+		if sto, ok := ins.(*ssa.Store); ok {
+			if fa, ok := sto.Addr.(*ssa.FieldAddr); ok && strings.HasPrefix(fieldOf(fa), "ArchiveDecoder.") && isBool(sto.Val.Type()) {
+				if k, isK := sto.Val.(*ssa.Const); isK && k.Value != nil && k.Value.ExactString() == "true" {
+					st.Flags["set:"+fieldOf(fa)] = 1
+				}
+			}
+		}
+	}
+	h.Return = func(st *State, ret *ssa.Return, results []Val) {
+		if len(results) != 2 || results[1].N == NNon {
+			return
+		}
+		if _, isNode := stripConv(ret.Results[0]).(*ssa.MakeInterface); !isNode {
+			if len(leaves(ret.Results[0])) == 1 {
+				if k, isK := leaves(ret.Results[0])[0].(*ssa.Const); isK && k.Value == nil {
+					return // end of archive
+				}
+			}
+		}
+		nodes++
+		first, set := "", false
+		for k := range st.Flags {
+			if strings.HasPrefix(k, "first:") {
+				first = strings.TrimPrefix(k, "first:")
+			}
+		}
+		for k := range st.Flags {
+			if strings.HasPrefix(k, "set:") && (first == "" || strings.TrimPrefix(k, "set:") == first) {
+				set = true
+			}
+		}
+		if st.Flags["named"] != 1 && st.Flags["nonempty"] != 1 && first == "" {
+			bad = append(bad, fmt.Sprintf("return at %s yields a node for an entry without a filename although it need not be the first entry of the archive (trail tail %s)", c.pos(ret.Pos()), tailOf(st.Trail, 6)))
+		} else if !set {
+			bad = append(bad, fmt.Sprintf("return at %s yields a node without recording that an entry was decoded: the next entry without a filename would be taken for the root again", c.pos(ret.Pos())))
+		}
+	}
+	Explore(fn, fn.Blocks[0], 0, nil, NewState(), h)
+	c.paths += h.Paths
+	switch {
+	case h.Truncated:
+		c.bad("ArchiveDecoder.Next:single-root", fn.Pos(), "path exploration truncated")
+	case len(bad) > 0:
+		c.bad("ArchiveDecoder.Next:single-root", fn.Pos(), "%s: such an entry takes the name of the current directory and can replace it by a symlink to the outside", bad[0])
+	case nodes == 0:
+		c.bad("ArchiveDecoder.Next:single-root", fn.Pos(), "no path returns a node")
+	default:
+		c.ok("ArchiveDecoder.Next:single-root", fn.Pos(), "%d node-returning path(s): a filename was validated, or the entry is the first of the archive; the state is recorded", nodes)
+	}
+}
+
+func tailOf(l []string, n int) string {
+	if len(l) > n {
+		l = l[len(l)-n:]
+	}
+	return strings.Join(l, ">")
+}
+
+// c18SymlinkNoFollow: the owner, mode, times and xattrs of a symlink entry are applied to the
+// link itself.  chown/chmod/utimes/setxattr follow a link whose target the archive chose, so in
+// the functions that restore a symlink's metadata only the l-variants may be called on its path.
+func c18SymlinkNoFollow(c *Ctx) {
+	follows := map[string]string{"os.Chown": "os.Lchown", "os.Chmod": "nothing (there is no lchmod on Linux)", "os.Chtimes": "unix.Lutimes / nothing", "syscall.Chown": "syscall.Lchown", "syscall.Chmod": "nothing",
+		"github.com/pkg/xattr.Set": "xattr.LSet", "os.Truncate": "nothing", "os.Stat": "os.Lstat"}
+	n := 0
+	for _, key := range []string{"LocalFS.SetSymlinkPermissions", "LocalFS.CreateSymlink"} {
+		fn := c.mustFn(key)
+		if fn == nil {
+			continue
+		}
+		for _, g := range fnsDeep(fn) {
+			if g != fn && !newHelpers[g] {
+				continue
+			}
+			for _, call := range calls(g, func(string) bool { return true }) {
+				if call.Parent() != g {
+					continue
+				}
+				name := callee(call)
+				if alt, bad := follows[name]; bad {
+					n++
+					c.bad(key+":"+name, call.Pos(), "%s follows a symbolic link: applied to a symlink entry it changes the object the link points to, which the archive chooses and which can lie outside the destination; use %s", name, alt)
+				} else if strings.HasPrefix(name, "os.L") || strings.HasSuffix(name, "xattr.LSet") || name == "syscall.Unlink" || name == "os.Symlink" {
+					n++
+					c.ok(key+":"+name, call.Pos(), "operates on the link itself")
+				}
+			}
+		}
+	}
+	if n == 0 {
+		c.bad("LocalFS:symlink-metadata", 0, "no link-level operation found in the symlink functions")
 	}
 }
